@@ -45,6 +45,7 @@ var (
 	Shapes   []Shape
 	Detached *Node
 	Big      []string
+	Slots    [3]*Node
 	nextID   int
 )
 
@@ -138,6 +139,63 @@ func DropDetached(cur realm) int {
 	id := Detached.ID
 	Detached = nil
 	return id
+}
+
+// ---- pointer slots: objects move between slots, also through a zero
+// reference count inside one finalization ----
+
+func SlotPut(cur realm, i int, tag string) int {
+	i %= len(Slots)
+	Slots[i] = newNode(tag)
+	return Slots[i].ID
+}
+
+func SlotSwap(cur realm, i, j int) int {
+	i %= len(Slots)
+	j %= len(Slots)
+	Slots[i], Slots[j] = Slots[j], Slots[i]
+	return i*10 + j
+}
+
+func SlotRehome(cur realm, i, j int) int {
+	i %= len(Slots)
+	j %= len(Slots)
+	n := Slots[i]
+	Slots[i] = nil
+	Slots[j] = n
+	if n == nil {
+		return -1
+	}
+	return n.ID
+}
+
+func SlotDrop(cur realm, i int) int {
+	i %= len(Slots)
+	if Slots[i] == nil {
+		return -1
+	}
+	id := Slots[i].ID
+	Slots[i] = nil
+	return id
+}
+
+// SlotReset puts fresh nodes into the slots selected by mask and clears the others.
+func SlotReset(cur realm, mask int) int {
+	for i := range Slots {
+		if mask&(1<<uint(i)) != 0 {
+			Slots[i] = newNode("s")
+			Slots[i].Next = newNode("t")
+		} else {
+			Slots[i] = nil
+		}
+	}
+	return mask
+}
+
+// MakeNode hands a fresh node to the caller: an object of this realm's type
+// that another realm keeps in its own state.
+func MakeNode(cur realm, tag string) *Node {
+	return newNode(tag)
 }
 
 func SetArr(cur realm, i, v int) int {
@@ -374,7 +432,11 @@ func Dump() string {
 	for _, sh := range Shapes {
 		s += strconv.Itoa(sh.Area()) + ","
 	}
-	s += "] D=" + dumpNode(Detached, 30) + " Big=" + strconv.Itoa(len(Big)) + " nid=" + strconv.Itoa(nextID)
+	s += "] D=" + dumpNode(Detached, 30) + " Big=" + strconv.Itoa(len(Big)) + " Sl=["
+	for _, n := range Slots {
+		s += dumpNode(n, 30) + ";"
+	}
+	s += "] nid=" + strconv.Itoa(nextID)
 	return s
 }
 `
@@ -431,6 +493,7 @@ var (
 	Calls   int
 	Notes   []string
 	Paid    int64
+	Held    []*store.Node
 )
 
 func Relay(cur realm, tag string) int {
@@ -456,6 +519,30 @@ func Forget(cur realm) int {
 	Seen = nil
 	n := len(Notes)
 	Notes = nil
+	return n
+}
+
+// Hold keeps an object created by (and of a type declared in) the store realm
+// in this realm's state; Release / ReleaseAll only let go of such objects.
+func Hold(cur realm, tag string) int {
+	n := store.MakeNode(cross(cur), tag)
+	Held = append(Held, n)
+	return n.ID
+}
+
+func Release(cur realm) int {
+	if len(Held) == 0 {
+		return -1
+	}
+	n := Held[len(Held)-1]
+	Held[len(Held)-1] = nil
+	Held = Held[:len(Held)-1]
+	return n.ID
+}
+
+func ReleaseAll(cur realm) int {
+	n := len(Held)
+	Held = nil
 	return n
 }
 
@@ -485,6 +572,11 @@ func Dump() string {
 	if Seen != nil {
 		s += " seen=" + strconv.Itoa(Seen.ID) + ":" + Seen.Tag
 	}
+	s += " held=["
+	for _, n := range Held {
+		s += strconv.Itoa(n.ID) + ":" + n.Tag + ","
+	}
+	s += "]"
 	return s
 }
 `
